@@ -76,6 +76,29 @@ def _nearest(eng, name, out, exact255, tol=HALF):
             eng.oblige("%s %s nearest" % (name, ch), weak)
 
 
+def hsla_obligations(eng, got, h, s_, l_, d, bgcol, name):
+    """translucent hsl: each channel within 1.5 of the exact source-over blend, proved via a stage lemma (opaque hsl stage
+    pre-rounding value == CSS) and an abstraction of the cubic terms (see runner.discharge 'abstract')"""
+    exact = [x * 255 for x in ref.css_hsl_exact(h, s_ / 100, l_ / 100)]
+    blend = ref.source_over(exact, d, bgcol)
+    stage = [SNum(x) for x in list(eng.round_log.values())[-3:]] if len(eng.round_log) >= 3 else None
+    abstract, lemmas, req = [], [], []
+    if stage is not None:
+        for ch, x, e in zip("rgb", stage, exact):
+            nm = "%s stage %s: opaque hsl pre-rounding value == CSS" % (name, ch)
+            eng.oblige(nm, close(x, e, EPS))
+            req.append(nm)
+            abstract += [(x.real(), "x" + ch), (symx.lift(e).real(), "e" + ch)]
+            lemmas.append(close(x, e, EPS).e)
+            lemmas.append(conj(symx.lift(e) >= -EPS, symx.lift(e) <= 255 + EPS).e)
+            eng.oblige("%s stage %s: CSS value in [0,255]" % (name, ch), conj(symx.lift(e) >= -EPS, symx.lift(e) <= 255 + EPS))
+            req.append("%s stage %s: CSS value in [0,255]" % (name, ch))
+    for ch, (o, e) in zip("rgb", zip(got, blend)):
+        eng.oblige("%s %s within 1.5 of source-over" % (name, ch), close(symx.lift(o), e, Fraction(3, 2) + EPS),
+                   abstract=abstract, lemmas=lemmas, requires=req)
+    return exact
+
+
 def run_job(job):
     m = load_core()
     parser = m.color_parser
@@ -153,24 +176,7 @@ def run_job(job):
             s = job["tpl"].format(a=h, b=s_, c=l_, d=d)
             got = parser.parse_color_to_rgb(s, background=bg) if bg is not None else parser.parse_color_to_rgb(s)
             eng.oblige("valid 8-bit", is_valid8(got))
-            exact = [x * 255 for x in ref.css_hsl_exact(h, s_ / 100, l_ / 100)]
-            blend = ref.source_over(exact, d, bg if bg is not None else (255, 255, 255))
-            # stage lemma: the opaque hsl stage (the round() calls made on this path) is within eps of CSS before rounding
-            stage = [SNum(x) for x in list(eng.round_log.values())[-3:]] if len(eng.round_log) >= 3 else None
-            abstract, lemmas, req = [], [], []
-            if stage is not None:
-                for ch, x, e in zip("rgb", stage, exact):
-                    nm = "hsla stage %s: opaque hsl pre-rounding value == CSS" % ch
-                    eng.oblige(nm, close(x, e, EPS))
-                    req.append(nm)
-                    abstract += [(x.real(), "x" + ch), (symx.lift(e).real(), "e" + ch)]
-                    lemmas.append(close(x, e, EPS).e)
-                    lemmas.append(conj(symx.lift(e) >= -EPS, symx.lift(e) <= 255 + EPS).e)
-                    eng.oblige("hsla stage %s: CSS value in [0,255]" % ch, conj(symx.lift(e) >= -EPS, symx.lift(e) <= 255 + EPS))
-                    req.append("hsla stage %s: CSS value in [0,255]" % ch)
-            for ch, (o, e) in zip("rgb", zip(got, blend)):
-                eng.oblige("hsla %s within 1.5 of source-over" % ch, close(symx.lift(o), e, Fraction(3, 2) + EPS),
-                           abstract=abstract, lemmas=lemmas, requires=req)
+            hsla_obligations(eng, got, h, s_, l_, d, bg if bg is not None else (255, 255, 255), "hsla")
             if job["tpl"] != job["base"]:
                 s2 = job["base"].format(a=h, b=s_, c=l_, d=d)
                 got2 = parser.parse_color_to_rgb(s2, background=bg) if bg is not None else parser.parse_color_to_rgb(s2)
